@@ -68,6 +68,8 @@ func c09(c *Ctx) {
 			missingAnchor(r, n)
 		}
 	}
+	// the assumed obligations "int(LEB128 value) >= 0" of the AV1 depacketizers rest on the reader's range
+	r.Floor("LEB128 range rows (LEB.range)", lebRules(c, "range"), 12)
 	boundsFor(c, "C09", entries)
 }
 
